@@ -43,7 +43,7 @@ type spaceBounds struct {
 
 func c02Bounds(tier string) spaceBounds {
 	if tier == "thorough" {
-		return spaceBounds{schemaN: 5, enumN: 6, regexN: 6, jsonN: 6, numberN: 7, schemaD: 7, enumD: 8, jsonD: 10}
+		return spaceBounds{schemaN: 5, enumN: 6, regexN: 6, jsonN: 6, numberN: 7, schemaD: 7, enumD: 6, jsonD: 10}
 	}
 	return spaceBounds{schemaN: 4, enumN: 5, regexN: 5, jsonN: 4, numberN: 6, schemaD: 5, enumD: 5, jsonD: 8}
 }
